@@ -654,6 +654,7 @@ def run(ctx):
     run_apfl_special(ctx, jax, fedjax, rng, int(cid.split('/')[1]))
 
 
+
 if __name__ == '__main__':
   # child of fresh_interpreter_history: argv = [case.pkl, out.pkl]
   import sys as _sys
@@ -666,3 +667,5 @@ if __name__ == '__main__':
   _out = plain_history(_case, _jax, _fedjax)
   with open(_sys.argv[2], 'wb') as _f:
     pickle.dump(_out, _f)
+
+TECHNIQUE += '; histories under jax.disable_jit; APFL failed-round and 2e4-5e4-client-table probes'
